@@ -39,7 +39,7 @@ impl Property for C39 {
         Meta {
             id: "C39",
             level: "exploration",
-            rule: "one evaluation = a two-stage pipeline on the real SDK: stage 1 signs asset A (any of 11 formats); a simulated disk then leaves A intact, applies one seeded stored-byte fault (flip / truncate / insert / delete / append, inside or outside the manifest), or A is unsigned; stage 2 reads A alone (reference) and adds A as parentOf / componentOf / inputTo ingredient of B through a SimStream with seeded benign chunking, signs B and reads B. Oracle: when A's store bytes are untouched, every manifest box of A appears byte-for-byte among the manifest boxes of B's store (simulator's own JUMBF walker); the ingredient's recorded failure-code multiset equals that of the reference read; an unsigned A records no manifest and no failure. Each run ends with ingredient sets whose stores overlap - the same asset twice, an asset and one that already carries it, an asset and a tampered copy of it under the same manifest label, in both orders - with the same two clauses per ingredient and the count of reported ingredients. Non-trivial = pipeline completed; distinct = (format, relationship, fault)",
+            rule: "one evaluation = a two-stage pipeline on the real SDK: stage 1 signs asset A (any of 11 formats); a simulated disk then leaves A intact, applies one seeded stored-byte fault (flip / truncate / insert / delete / append, inside or outside the manifest), or A is unsigned; stage 2 reads A alone (reference) and adds A as parentOf / componentOf / inputTo ingredient of B through a SimStream with seeded benign chunking, signs B and reads B. Oracle: when A's store bytes are untouched, every manifest box of A appears byte-for-byte among the manifest boxes of B's store (simulator's own JUMBF walker); the ingredient's recorded failure-code multiset equals that of the reference read; an unsigned A records no manifest and no failure. Each run ends with ingredient sets whose stores overlap - the same asset twice, an asset and one that already carries it, an asset and a tampered copy of it under the same manifest label, in both orders - with the same two clauses per ingredient and the count of reported ingredients. JPEG runs also take one real-world asset of the repository's fixtures (long chains, version-1 claims with legacy ingredient assertions, update manifests, box hash, OCSP) as the ingredient, once directly and once through Builder::to_archive / with_archive (where the ingredient's manifest data is rebuilt from a loaded store): validation state and failure codes of the resulting asset agree. Non-trivial = pipeline completed; distinct = (format, relationship, fault)",
             assumptions: &[
                 "label conflicts (same manifest label, different content already in B) are not generated",
                 "when the reference read of A fails outright nothing is demanded of the ingredient record",
@@ -326,6 +326,70 @@ impl Property for C39 {
                             } else {
                                 out.probe("multi:manifest-carried-byte-identical");
                             }
+                        }
+                    }
+                }
+            }
+        }
+        // real-world assets of the repository (long chains, version-1 claims with legacy ingredient
+        // assertions, update manifests, box hashes): the ingredient goes in directly, and through
+        // a builder archive (where its manifest data is rebuilt from a loaded store)
+        if fmt == Fmt::Jpeg {
+            const FIXTURES: [&str; 11] = ["CA.jpg", "CACA.jpg", "CACAE-uri-CA.jpg", "CIE-sig-CA.jpg", "adobe-20220124-E-clm-CAICAI.jpg", "legacy_ingredient_hash.jpg",
+                "update_manifest.jpg", "boxhash.jpg", "ocsp.jpg", "XCA.jpg", "E-sig-CA.jpg"];
+            let name = FIXTURES[((rc.idx / 11) % FIXTURES.len() as u64) as usize];
+            let sub = 2000;
+            if rc.want_sub(sub) {
+                rc.mark(sub);
+                match std::fs::read(format!("/repo/sdk/tests/fixtures/{name}")) {
+                    Err(_) => out.probe("fixture_missing"),
+                    Ok(a) if a.is_empty() => out.probe("fixture_empty"),
+                    Ok(a) => {
+                        out.evals += 1;
+                        out.fault("real_world_ingredient");
+                        out.keys.push(hash_str(&format!("fixture|{name}")));
+                        let route = |via_archive: bool| -> Result<(String, Vec<String>, usize), String> {
+                            let mut b = Builder::from_shared_context(&ctx).with_definition(sdk::simple_definition("B")).map_err(|e| err_kind(&e))?;
+                            b.add_ingredient_from_stream(json!({"title": "ing", "relationship": "componentOf"}).to_string(), "image/jpeg", &mut std::io::Cursor::new(a.clone()))
+                                .map_err(|e| format!("add:{}", err_kind(&e)))?;
+                            if via_archive {
+                                let mut ar = std::io::Cursor::new(Vec::new());
+                                b.to_archive(&mut ar).map_err(|e| format!("to_archive:{}", err_kind(&e)))?;
+                                ar.set_position(0);
+                                b = Builder::from_shared_context(&ctx).with_archive(ar).map_err(|e| format!("with_archive:{}", err_kind(&e)))?;
+                            }
+                            let mut d = std::io::Cursor::new(Vec::new());
+                            b.sign(sdk::make_signer("ed25519").as_ref(), "image/jpeg", &mut std::io::Cursor::new(b_asset.clone()), &mut d).map_err(|e| format!("signB:{}", err_kind(&e)))?;
+                            let signed = d.into_inner();
+                            let rep = sdk::read_plain(&ctx, "image/jpeg", &signed).map_err(|e| format!("readB:{e}"))?;
+                            let ing = rep.active_manifest().and_then(|m| m.get("ingredients")).and_then(|i| i.as_array()).and_then(|a| a.first().cloned()).unwrap_or(Value::Null);
+                            let mut fails: Vec<String> = ing.get("validation_results").and_then(|v| v.get("activeManifest")).map(|v| codes_of(v, "failure")).unwrap_or_default()
+                                .iter().map(|c| c.split('|').next().unwrap_or("").to_string()).collect();
+                            fails.extend(rep.failure_codes().iter().map(|c| format!("B:{c}")));
+                            fails.sort();
+                            let st = c2pa::jumbf_io::load_jumbf_from_memory("image/jpeg", &signed).unwrap_or_default();
+                            let n_manifests = jumbf::parse(&st).first().map(|t| t.children.iter().filter(|c| &c.typ == b"jumb").count()).unwrap_or(0);
+                            Ok((rep.state.clone(), fails, n_manifests))
+                        };
+                        let direct = sdk::guarded(|| route(false));
+                        let archived = sdk::guarded(|| route(true));
+                        match (direct, archived) {
+                            (Ok(d), Ok(a2)) => {
+                                out.probe(&format!("fixture:{name}:{}", match &d { Ok(x) => x.0.clone(), Err(e) => format!("err:{e}") }));
+                                let same = match (&d, &a2) {
+                                    (Ok(x), Ok(y)) => x.0 == y.0 && x.1 == y.1,
+                                    (Err(x), Err(y)) => x == y,
+                                    _ => false,
+                                };
+                                if !same {
+                                    out.violate(sub, &format!("ingredient-through-archive-differs:{}", name.trim_end_matches(".jpg")),
+                                        "C39 an ingredient keeps its manifests and validation results whichever way it reaches the builder",
+                                        json!({"fixture": name, "direct": format!("{d:?}"), "through_archive": format!("{a2:?}")}));
+                                } else {
+                                    out.probe("fixture:routes-agree");
+                                }
+                            }
+                            (Err(p), _) | (_, Err(p)) => out.violate(sub, &format!("panic:{}", p.split('|').next().unwrap_or("?")), "G1 no panic", json!({"fixture": name, "panic": p})),
                         }
                     }
                 }
